@@ -263,6 +263,56 @@ def writeRecord (fs : FS) (s : Sched) : Ph :=
       let f := appendAndFinish j.fs n s
       ⟨f.fs, pre.tr ++ j.tr ++ f.tr, f.st⟩
 
+/-! ### the class of the I/O error
+
+`except (OSError, IOError) as error:` -- the handler's condition is "ANY OSError": ENOSPC, EIO, but just
+as well PermissionError (EACCES / EPERM), FileNotFoundError (ENOENT), InterruptedError, BlockingIOError,
+TimeoutError and the `IOError` alias; each of them can come from the open, from any write, from the
+flush inside close or from close itself after part of the record is on disk. -/
+
+inductive IOErr
+  | enospc | eio | eacces | eperm | enoent | eintr | eagain | etimedout | ioerror
+  deriving DecidableEq, Repr
+
+/-- does `except (OSError, IOError)` catch an error of this class?  All of them are OSErrors. -/
+def handlerCatches : IOErr → Bool := fun _ => true
+
+/-- `appendAndFinish` with the class `e` of the error that comes out of the `with` block spelled out:
+the roll-back runs iff the handler catches that class; otherwise only `finally` runs. -/
+def appendAndFinishE (e : IOErr) (fs : FS) (n : Nat) (s : Sched) : Ph :=
+  let a := appendPhase fs s
+  match a.st with
+  | some .died => a
+  | some .raised =>
+    if handlerCatches e then
+      let r := rollbackPhase a.fs n s
+      match r.st with
+      | some .died => ⟨r.fs, a.tr ++ r.tr, some .died⟩
+      | _ => unlinkStep r.fs (a.tr ++ r.tr) s .raised
+    else unlinkStep a.fs a.tr s .raised
+  | _ => unlinkStep a.fs a.tr s .done
+
+/-- `write_record` when the I/O errors of the schedule are of class `e` -/
+def writeRecordE (e : IOErr) (fs : FS) (s : Sched) : Ph :=
+  let n := fs.bytes.length
+  let pre : Ph :=
+    match fs.archive with
+    | none => ⟨fs, [], none⟩
+    | some _ =>
+      match s.getsize with
+      | .ok => ⟨fs, [(.getsize, .ok)], none⟩
+      | .fail k => ⟨fs, [(.getsize, .fail k)], some .raised⟩
+      | .die k => ⟨fs, [(.getsize, .die k)], some .died⟩
+  match pre.st with
+  | some st => ⟨fs, pre.tr, some st⟩
+  | none =>
+    let j := journalPhase fs n s
+    match j.st with
+    | some st => ⟨j.fs, pre.tr ++ j.tr, some st⟩
+    | none =>
+      let f := appendAndFinishE e j.fs n s
+      ⟨f.fs, pre.tr ++ j.tr ++ f.tr, f.st⟩
+
 /-- final status (every path of `writeRecord` ends with one) -/
 def Ph.status (p : Ph) : Status := p.st.getD .done
 
